@@ -396,7 +396,7 @@ theorem gen_facts :
     Gen.InternalPlanner.vecCases = ["sum", "min", "max", "avg", "count"] ∧
     Gen.InternalPlanner.breakConds = ["n != nil && !reflect.ValueOf(n).IsNil()",
       "ppl.Parser != nil && ((ppl.Parser.Fn == \"json\" && len(ppl.Parser.ParserParams) == 0) || ppl.Parser.Fn == \"logfmt\")",
-      "ppl.LineFormat != nil"] :=
+      "ppl.LineFormat != nil", "ppl.LabelFormat != nil"] :=
   ⟨rfl, rfl, rfl, rfl, rfl, rfl, rfl, rfl, rfl, rfl, rfl, rfl, rfl, rfl⟩
 
 /-! ## non-vacuity -/
